@@ -121,7 +121,7 @@ package ast
 //@   ensures len(stack.values) == 0 ==> result == nil
 //@   ensures len(stack.values) > 0 ==> result == stack.values[len(stack.values)-1]
 
-//@ typeinv ToBoltListener: self.stacks != nil && self.currentStack != nil && forall(i, 0 <= i && i < len(self.stacks.values) ==> istype(self.stacks.values[i], *Stack))
+//@ typeinv ToBoltListener: self.stacks != nil && self.currentStack != nil && self.stacks != self.currentStack && forall(i, 0 <= i && i < len(self.stacks.values) ==> istype(self.stacks.values[i], *Stack))
 //@ func (*ToBoltListener).HasError
 //@   props C10
 //@   pure
